@@ -383,15 +383,18 @@ def pp2_config(unit):
     }
 
 
-def directive_scenario(T, d, second=None, variant=None):
+def directive_scenario(T, d, second=None, variant=None, kind='TK_IDENT'):
     """`# d M` / next line `x y` (or `# second z`).
-    variant 'word': the line is `w d M` (no `#`); 'midline': the `#` does not begin a line"""
+    variant 'word': the line is `w d M` (no `#`); 'midline': the `#` does not begin a line; 'nextline': the `#` stands alone on its
+    line (a null directive, C11 6.10.7) and `d M` is the next line"""
     def mk(ctx):
-        specs = T.line('a', [('#', 'TK_PUNCT'), (d, 'TK_IDENT'), ('M', 'TK_IDENT')])
+        specs = T.line('a', [('#', 'TK_PUNCT'), (d, kind), ('M', 'TK_IDENT')])
         if variant == 'word':
             specs[0] = ('a0:w', 'w', 'TK_IDENT', True)
         elif variant == 'midline':
             specs[0] = ('a0:#', '#', 'TK_PUNCT', False)
+        elif variant == 'nextline':
+            specs[1] = (specs[1][0], specs[1][1], specs[1][2], True)
         if second:
             specs += T.line('b', [('#', 'TK_PUNCT'), (second, 'TK_IDENT'), ('z', 'TK_IDENT')])
             specs += T.line('c', [('x', 'TK_IDENT'), ('y', 'TK_IDENT')])
@@ -404,9 +407,9 @@ def directive_scenario(T, d, second=None, variant=None):
     return mk
 
 
-def explore_directive(P, unit, T, d, fn='preprocess2', variant=None):
+def explore_directive(P, unit, T, d, fn='preprocess2', variant=None, kind='TK_IDENT'):
     it = PPInterp(P, unit, pp2_config(unit))
-    res = it.explore(fn, directive_scenario(T, d, variant=variant), max_paths=400)
+    res = it.explore(fn, directive_scenario(T, d, variant=variant, kind=kind), max_paths=400)
     return it, res
 
 
